@@ -167,9 +167,14 @@ def coq(t):
 
 
 def unlist(t):
-    """normalise tuples/lists for comparison with parse_term output"""
+    """normalise tuples/lists for comparison with parse_term output; named arguments are a map in the AST:
+    their order is not part of the tree"""
     if isinstance(t, (list, tuple)):
-        return [unlist(x) for x in t]
+        r = [unlist(x) for x in t]
+        if len(r) == 3 and r[0] == "ECall" and isinstance(r[2], list):
+            named = sorted([a for a in r[2] if isinstance(a, list) and a and a[0] == "ENamed"], key=lambda a: a[1])
+            r[2] = named + [a for a in r[2] if not (isinstance(a, list) and a and a[0] == "ENamed")]
+        return r
     return t
 
 
@@ -213,7 +218,8 @@ def canon_tokens(toks):
     res = []
     for i, t in enumerate(out):
         if isinstance(t, dict) and "Range" in t:
-            bl = t["Range"]["bind_left"] and i > 0 and ends_operand(out[i - 1])
+            star = i > 1 and out[i - 1] == {"Control": "*"} and out[i - 2] == {"Control": "."}   # `t.*`
+            bl = t["Range"]["bind_left"] and i > 0 and (ends_operand(out[i - 1]) or star)
             br = t["Range"]["bind_right"] and i + 1 < len(out) and begins_operand(out[i + 1])
             res.append({"Range": [bl, br]})
         else:
@@ -327,16 +333,19 @@ def run(ck, info, pr):
     for a in G.ADJACENCY:
         if "func" not in a:
             cases.append(("corr-fmt-adjacency", a))
-    for key, e in G.quads(rng, ck.n(300, 4000)):
+    for key, e in G.quads(rng, ck.n(200, 4000)):
         cases.append(("corr-fmt-quads", G.src(e)))
-    for _ in range(ck.n(500, 6000)):
+    for _ in range(ck.n(300, 6000)):
         d = rng.choice([2, 3, 3, 4])
         cases.append(("corr-fmt-random", G.src(G.gen_expr(rng, d, {"clean": rng.random() < 0.7, "nofunc_top": True}))))
-    for _ in range(ck.n(200, 2000)):
+    for _ in range(ck.n(100, 2000)):
         cases.append(("corr-fmt-random", G.src(G.gen_expr(rng, 3, {"clean": False, "lits": False, "idq": 0.0, "idk": 0.0}))))
     answers = harness("c14", [{"src": "let v = " + s + "\n", "targets": [], "compile": False} for _, s in cases])
     todo = []
+    answers_by_src = {}
     for (stream, s), a in zip(cases, answers):
+        if isinstance(a, dict):
+            answers_by_src[s] = a
         if not isinstance(a, dict) or "pl" not in a or "fmt" not in a:
             ck.stat(stream, "skipped:no-parse")
             continue
@@ -365,32 +374,27 @@ def run(ck, info, pr):
     for (stream, s, t, real, v), val in zip(todo, vals):
         mt = "".join(chr(c) for c in val[0]) if isinstance(val, tuple) else None
         texts.append(mt)
-    lex_reqs = []
-    for (stream, s, t, real, v), mt in zip(todo, texts):
-        lex_reqs.append({"src": real})
-        lex_reqs.append({"src": mt or ""})
-    lex = harness("c14lex", lex_reqs)
+    # wrapped real output: line breaking re-parenthesises (break_line_within_parenthesis keeps the outer context),
+    # so texts are not comparable; instead the model's text must parse -- by the real parser -- to the same AST
+    back = harness("c14", [{"src": "let v = " + (mt or "") + "\n", "targets": [], "compile": False} for mt in texts])
     for k, ((stream, s, t, real, v), val, mt) in enumerate(zip(todo, vals, texts)):
         ck.count(stream, s)
-        lr, lm = lex[2 * k], lex[2 * k + 1]
         case = {"src": "let v = " + s + "\n", "real_fmt": real, "model_fmt": mt}
+        feats = O.features(O.strip(v))
         one_line = "\n" not in real
-        if one_line:
+        if one_line and "named-args-order" not in feats:
             ck.stat(stream, "exact-text-compared")
             if mt != real:
                 ck.disagreement("formatter model text differs from pl_to_prql", case, None)
                 continue
         else:
-            ck.stat(stream, "wrapped:tokens-compared")
-        if "ok" not in lr or "ok" not in lm:
-            if ("ok" in lr) != ("ok" in lm):
-                ck.disagreement("formatter model text and real text lex differently", dict(case, real_lex=str(lr)[:200], model_lex=str(lm)[:200]), None)
-            else:
-                ck.stat(stream, "both-outputs-unlexable(known string defects)")
-            continue
-        if json.dumps(canon_tokens(lr["ok"]), sort_keys=True) != json.dumps(canon_tokens(lm["ok"]), sort_keys=True):
-            ck.disagreement("formatter model tokens differ from pl_to_prql", case, None)
-            continue
+            ck.stat(stream, "wrapped-or-hash-ordered:ast-compared")
+            b = back[k]
+            real_ok = "pl2" in answers_by_src.get(s, {}) and O.canon(O.strip(answers_by_src[s]["pl2"])) == O.canon(O.strip(answers_by_src[s]["pl"]))
+            model_ok = isinstance(b, dict) and "pl" in b and value_of(b["pl"]) is not None and len(b["pl"]["stmts"]) == 1 and O.canon(O.strip(value_of(b["pl"]))) == O.canon(O.strip(v))
+            if real_ok != model_ok:
+                ck.disagreement("model text and real text disagree on whether they parse back to the source tree", dict(case, real_roundtrips=real_ok, model_roundtrips=model_ok), None)
+                continue
         # the model's own round trip on this tree (a theorem; here it also exercises the parser model)
         parsed = val[1]
         ok_rt = isinstance(parsed, tuple) and parsed[0] == "Some" and unlist(parsed[1]) == unlist(t)
@@ -417,9 +421,9 @@ def run(ck, info, pr):
     for key, e in G.triples():
         psrc.append(("corr-parser-triples", G.src(e)))
     for (stream, s, t, real, v), mt in zip(todo, texts):
-        if stream != "corr-fmt-triples" and "\n" not in real and len(psrc) < ck.n(1500, 9000):
+        if stream != "corr-fmt-triples" and "\n" not in real and len(psrc) < ck.n(1700, 9000):
             psrc.append(("corr-parser-fmt-output", real))
-    for _ in range(ck.n(300, 3000)):
+    for _ in range(ck.n(200, 3000)):
         e = G.gen_expr(rng, 3, {"clean": True, "lits": True, "rich": True, "nofunc_top": True})
         psrc.append(("corr-parser-random", drop_parens(rng, G.src(e))))
     pa = harness("c14", [{"src": "let v = " + s + "\n", "targets": [], "compile": False} for _, s in psrc])
@@ -490,7 +494,7 @@ def run_literals(ck, info):
         frontier = [p + c for p in frontier for c in alpha]
         strs += frontier
     strs += G.STRINGS
-    for _ in range(ck.n(300, 5000)):
+    for _ in range(ck.n(150, 5000)):
         strs.append("".join(rng.choice(["'", '"', "\\", "a", " ", "\n", "\t", "é", "{", "\u0001", "\u007f", "😀", " ", "퟿", "￿", "\r"]) for _ in range(rng.randint(0, 9))))
     strs = list(dict.fromkeys(strs))
     real = harness("c14display", [{"kind": "string", "s": s} for s in strs])
@@ -528,7 +532,7 @@ def run_literals(ck, info):
         if "".join(chr(c) for c in v[0]) != r.get("text"):
             ck.disagreement("fmt_raw differs from Literal::RawString Display", {"raw": s, "real": r.get("text")}, None)
     # integers
-    ints = [0, 1, 7, 9, 10, 11, 99, 100, 101, 255, 256, 1000, 65535, 2 ** 31, 2 ** 32 - 1, 2 ** 53, 10 ** 18, 2 ** 63 - 1] + [rng.randrange(0, 2 ** 63) for _ in range(ck.n(100, 2000))] + list(range(12, 60))
+    ints = [0, 1, 7, 9, 10, 11, 99, 100, 101, 255, 256, 1000, 65535, 2 ** 31, 2 ** 32 - 1, 2 ** 53, 10 ** 18, 2 ** 63 - 1] + [rng.randrange(0, 2 ** 63) for _ in range(ck.n(60, 2000))] + list(range(12, 40))
     ri = harness("c14display", [{"kind": "int", "i": i} for i in ints])
     vi = coq_eval(HEADER, ["(show_Z (%d)%%Z, lex_number (show_Z (%d)%%Z))" % (i, i) for i in ints])
     for i, r, v in zip(ints, ri, vi):
@@ -546,7 +550,7 @@ def run_literals(ck, info):
     # floats
     fl = ["0.5", "1.5", "0.1", "0.25", "3.14159", "123456.789", "1e-7", "1.5e-7", "5e-324", "0.30000000000000004", "1.7976931348623157e308", "2.5", "1e21", "1e22", "1.0", "0.0", "2.0",
           "100.0", "1e3", "9007199254740993.0", "9223372036854775808.0", "1e19", "12345678901234567890.0", "inf", "4.9e-320", "1e100", "0.000001", "1e-10", "123.456e5", "6.02e23"]
-    for _ in range(ck.n(300, 5000)):
+    for _ in range(ck.n(150, 5000)):
         k = rng.random()
         if k < 0.4:
             fl.append(repr(rng.random() * 10 ** rng.randint(-5, 5)))
@@ -568,6 +572,15 @@ def run_literals(ck, info):
         mt = "".join(chr(c) for c in v[0])
         case = {"float": f, "decimal": str(t), "model_text": mt, "real_text": r.get("text")}
         if mt != r.get("text"):
+            rt = r.get("text") or ""
+            try:
+                tie = len(rt) == len(mt) and float(rt) == float(mt) == float(f)
+            except ValueError:
+                tie = False
+            if tie:
+                # two equally short decimals round-trip (the value is an exact tie): python's repr and Rust pick different ones
+                ck.stat("corr-lit-float", "shortest-decimal-tie:skipped")
+                continue
             ck.disagreement("fmt_float differs from Literal::Float Display", case, None)
             continue
         rl = r.get("lex")
@@ -608,5 +621,5 @@ def run_literals(ck, info):
         d, w = "".join(chr(c) for c in v[0]), "".join(chr(c) for c in v[1])
         if "ok" in a and a["ok"] != "let v = %s\n" % d:
             ck.disagreement("display_ident_part model differs from the formatter", {"part": p, "model": d, "real": a["ok"]}, None)
-        if "ok" in b and b["ok"] != "let v = {%s = 1}\n" % w:
+        if "ok" in b and "\n" not in p and b["ok"] != "let v = {%s = 1}\n" % w:
             ck.disagreement("write_ident_part model differs from the formatter", {"part": p, "model": w, "real": b["ok"]}, None)
